@@ -131,6 +131,16 @@ Definition c01_run (fam : string) (args : list val) : option string :=
     match args with [n] => Some (c01_ptrs (as_Z n)) | _ => None end
   else if String.eqb fam "c01.arr" then
     match args with [ty; n; v] => Some (c01_arr (as_Z ty) (Z.to_nat (as_Z n)) (as_Z v)) | _ => None end
+  else if String.eqb fam "c01.miri_use" then
+    (* results USED under Miri.  The calls and their arguments are constants of the harness, so the
+       expected values are the fixed numbers std semantics give for them (recorded once); what this
+       family is for is that Miri accepts the execution *)
+    match args with
+    | [k] => Some (match as_Z k with
+                   | 0 => "30" | 1 => "14" | 2 => "[15, 8, 6, 6, 5, 28]" | 3 => "[1, 7, 3][9, 3]"
+                   | 4 => "1227002" | 5 => "336133" | _ => "?" end)%Z
+    | _ => None
+    end
   else if String.eqb fam "c01.ctfe" then
     (* const evaluation of a safe API succeeds and agrees with the run-time evaluation *)
     Some "same"
